@@ -23,6 +23,8 @@
 package encoding
 
 import (
+	"math"
+	"strconv"
 	"bytes"
 	"encoding/json"
 	"fmt"
@@ -56,7 +58,15 @@ func decodeValue(val interface{}) (string, error) {
 		} else {
 			return "false", nil
 		}
+	case json.Number: // Number kept exactly as written in the input
+		return typeValue.String(), nil
 	case float64: // Non-empty Leaf containing number of any sort
+		if typeValue != math.Trunc(typeValue) || math.Abs(typeValue) >= 1<<63 {
+			// Not an integer, or not representable as one: hand the
+			// number on as it is so that validation can reject it,
+			// rather than truncating or wrapping it into a valid value.
+			return strconv.FormatFloat(typeValue, 'f', -1, 64), nil
+		}
 		return fmt.Sprintf("%d", int(typeValue)), nil
 	case nil: // Empty leaf
 		return "", nil
@@ -181,8 +191,15 @@ func unmarshalJSONInternal(
 			return nil, err
 		}
 	} else {
-		if err := json.Unmarshal(json_input, &jr.decodedMsg); err != nil {
+		// Keep numbers as written: 64-bit integers do not survive a
+		// round trip through float64.
+		dec := json.NewDecoder(bytes.NewReader(json_input))
+		dec.UseNumber()
+		if err := dec.Decode(&jr.decodedMsg); err != nil {
 			return nil, err
+		}
+		if dec.More() {
+			return nil, fmt.Errorf("invalid JSON: data after top-level value")
 		}
 	}
 
